@@ -349,7 +349,10 @@ Definition spec_cfg_tok (s : sstate) : tok := TCfg (map (fun i => fs_sid (st c i
    2: two such transitions have the same source
    4: a final state is entered (or active) below a <parallel> that is more than two levels up
    8: (static) a deep history's parent has a proper descendant that owns a history of its own: the
-      engines keep all history values in one bit array, so the two histories share bits *)
+      engines keep all history values in one bit array, so the two histories share bits
+   16: an enabled transition targets the <history> of a state that encloses its source: Appendix D takes
+      the domain from the effective targets (and then enters the states between the history's parent and
+      them although they were not exited); the engines take it from the history element *)
 Definition all_enabled (cfg : list nat) (ev : option event) (x : xstate) : list nat :=
   filter (fun ti =>
             let t := tr c ti in
@@ -380,7 +383,13 @@ Definition diag (cfg : list nat) (ev : option event) (x : xstate) : N :=
                                                     end) (seq 0 n)
                                | _, _ => false
                                end) (seq 0 n) in
-  ((if ap then 1 else 0) + (if ss then 2 else 0) + (if dd then 4 else 0) + (if ho then 8 else 0))%N.
+  let ht := existsb (fun ti => existsb (fun x => is_history_state x &&
+                                                match fs_parent (st c x) with
+                                                | Some p => is_descendant (ft_source (tr c ti)) p
+                                                | None => false
+                                                end) (ft_targets (tr c ti))) en in
+  ((if ap then 1 else 0) + (if ss then 2 else 0) + (if dd then 4 else 0) + (if ho then 8 else 0) +
+   (if ht then 16 else 0))%N.
 
 Definition spec_microstep_d (d : N) (ts : list nat) (s : sstate) (x : xstate) : sstate * xstate :=
   let x0 := emit (TDiag d) (emit TMsB x) in
